@@ -69,7 +69,10 @@ def check(rep, tier, seed):
                 refn = [int(x.split(":")[0]) for x in l.split()[2:]]
             elif l.startswith("op rf:"):
                 t = l.split()
-                rc, lk = int(t[3]), int(t[-1])
+                try:
+                    rc, lk = int(t[3]), int(t[-1])
+                except (ValueError, IndexError):
+                    continue          # line cut short by a crash/watchdog: reported through the exit status
                 if rc > 0:
                     got[lk] = got.get(lk, 0) + rc
                 elif rc < 0:
